@@ -5,6 +5,7 @@ import (
 	"encoding/json"
 	"fmt"
 	"io"
+	"sync"
 	"time"
 
 	dbmodels "github.com/influxdata/influxdb/models"
@@ -132,9 +133,10 @@ func ReplayBatchFromChan(clck clock.Clock, batches []<-chan edge.BufferedBatchMe
 	}
 
 	allErrs := make(chan error, len(batches))
+	rs := newReplayStart(len(batches))
 	for i := range batches {
 		go func(collector BatchCollector, batches <-chan edge.BufferedBatchMessage, clck clock.Clock, recTime bool) {
-			allErrs <- replayBatchFromChan(clck, batches, collector, recTime)
+			allErrs <- replayBatchFromChan(clck, batches, collector, recTime, rs)
 		}(collectors[i], batches[i], clck, recTime)
 	}
 	go func() {
@@ -161,10 +163,11 @@ func ReplayBatchFromIO(clck clock.Clock, data []io.ReadCloser, collectors []Batc
 	}
 
 	allErrs := make(chan error, len(data)*2)
+	rs := newReplayStart(len(data))
 	for i := range data {
 		batches := make(chan edge.BufferedBatchMessage)
 		go func(collector BatchCollector, batches <-chan edge.BufferedBatchMessage, clck clock.Clock, recTime bool) {
-			allErrs <- replayBatchFromChan(clck, batches, collector, recTime)
+			allErrs <- replayBatchFromChan(clck, batches, collector, recTime, rs)
 		}(collectors[i], batches, clck, recTime)
 		go func(data io.ReadCloser, batches chan<- edge.BufferedBatchMessage) {
 			allErrs <- readBatchFromIO(data, batches)
@@ -184,14 +187,52 @@ func ReplayBatchFromIO(clck clock.Clock, data []io.ReadCloser, collectors []Batc
 	return errC
 }
 
+// replayStart is the earliest first point time of all the sources of a batch replay.
+// The sources share it so that they are all shifted by the same offset.
+type replayStart struct {
+	wg    sync.WaitGroup
+	mu    sync.Mutex
+	start time.Time
+}
+
+func newReplayStart(sources int) *replayStart {
+	rs := new(replayStart)
+	rs.wg.Add(sources)
+	return rs
+}
+
+// report the time of the first point of a source, or the zero time if it has no points.
+func (rs *replayStart) report(t time.Time) {
+	rs.mu.Lock()
+	if !t.IsZero() && (rs.start.IsZero() || t.Before(rs.start)) {
+		rs.start = t
+	}
+	rs.mu.Unlock()
+	rs.wg.Done()
+}
+
+// wait for all sources to report and return the earliest time.
+func (rs *replayStart) wait() time.Time {
+	rs.wg.Wait()
+	rs.mu.Lock()
+	defer rs.mu.Unlock()
+	return rs.start
+}
+
 // Replay the batch data from a single source
-func replayBatchFromChan(clck clock.Clock, batches <-chan edge.BufferedBatchMessage, collector BatchCollector, recTime bool) error {
+func replayBatchFromChan(clck clock.Clock, batches <-chan edge.BufferedBatchMessage, collector BatchCollector, recTime bool, rs *replayStart) error {
 	defer collector.Close()
 
 	// Find relative times
 	var start, tmax time.Time
 	var diff time.Duration
 	zero := clck.Zero()
+	reported := false
+	defer func() {
+		if !reported {
+			rs.report(time.Time{})
+		}
+	}()
 
 	for b := range batches {
 		if len(b.Points()) == 0 {
@@ -209,8 +250,10 @@ func replayBatchFromChan(clck clock.Clock, batches <-chan edge.BufferedBatchMess
 			continue
 		}
 		points := b.Points()
-		if start.IsZero() {
-			start = points[0].Time()
+		if !reported {
+			reported = true
+			rs.report(points[0].Time())
+			start = rs.wait()
 			diff = zero.Sub(start)
 		}
 		var lastTime time.Time
